@@ -682,7 +682,7 @@ func (k *checker) partCancel(idx *int64) {
 	// value vectors of (sample 1, sample 2, sample 3): sample 3 repeats the stack of sample 1
 	vals := [][3]int64{{1, -1, 0}, {1, 1, -1}, {2, -1, -2}}
 	modes := []string{"negative", "diff_base"}
-	c.Note(fmt.Sprintf("cancel: pairs of stack shapes (alphabet of %d kinds, depth<=2, total depth<=%d) x %d value vectors with cancelling weights x {negative sample values, -diff_base of two profiles} x %d dot option sets (4 granularities x call_tree x drop_negative) + callgrind",
+	c.Note(fmt.Sprintf("cancel: pairs of stack shapes (alphabet of %d kinds, depth<=2, total depth<=%d) x %d value vectors with cancelling weights x {negative sample values, -diff_base of two profiles, negative values with a shared string label and differing numeric labels} x %d dot option sets (4 granularities x call_tree x drop_negative) + callgrind",
 		len(sigma), maxSum, len(vals), len(opts)))
 	for i := range shapes {
 		for j := range shapes {
@@ -690,14 +690,21 @@ func (k *checker) partCancel(idx *int64) {
 				continue
 			}
 			for vi, v := range vals {
-				for _, mode := range modes {
+				for _, mode0 := range append(append([]string{}, modes...), "negative+tags") {
+					mode := mode0
+					// tagged variant: the cancelling samples share one string label set but carry
+					// different numeric label values; a further unlabelled sample keeps the node alive
+					tagged := mode0 == "negative+tags"
+					if tagged {
+						mode = "negative"
+					}
 					if c.Mine(*idx) {
 						if c.Expired() {
 							k.capped = true
 							c.Cap(fmt.Sprintf("time budget: stopped at case index %d", *idx))
 							return
 						}
-						cs := Case{Part: "cancel", Stacks: fmt.Sprintf("%s ; %s ; values %v", shapes[i].Tag(sigma), shapes[j].Tag(sigma), v), Mode: mode}
+						cs := Case{Part: "cancel", Stacks: fmt.Sprintf("%s ; %s ; values %v", shapes[i].Tag(sigma), shapes[j].Tag(sigma), v), Mode: mode0}
 						_ = vi
 						mk := func(stacks ...ap.Stack) *ap.AP {
 							return &ap.AP{Types: []ap.VT{{Type: "n", Unit: "count"}}, Maps: enum.Maps2,
@@ -710,6 +717,14 @@ func (k *checker) partCancel(idx *int64) {
 							sts = append(sts, shapes[i].Stack(sigma, []int64{v[0]}), shapes[j].Stack(sigma, []int64{v[1]}))
 							if v[2] != 0 {
 								sts = append(sts, shapes[i].Stack(sigma, []int64{v[2]}))
+							}
+							if tagged {
+								for n := range sts {
+									sts[n].Labels = map[string][]string{"k": {"x"}}
+									sts[n].NumLabel = map[string][]int64{"bytes": {int64(10 * (n%2 + 1))}}
+									sts[n].NumUnit = map[string][]string{"bytes": {"bytes"}}
+								}
+								sts = append(sts, shapes[i].Stack(sigma, []int64{1}), shapes[j].Stack(sigma, []int64{1}))
 							}
 							data = map[string][]byte{"p": drive.Encode(ap.Concretize(mk(sts...), ap.Opts{}))}
 						} else {
